@@ -98,3 +98,77 @@ package client
 //@   ensures len(lruStrs(g.cache, paramHash)) == ite(old(lruHas(g.cache, paramHash)), old(len(lruStrs(g.cache, paramHash))) + 1, 1)
 //@   ensures lruStrs(g.cache, paramHash)[len(lruStrs(g.cache, paramHash)) - 1] == uuid
 //@   ensures old(lruHas(g.cache, paramHash)) ==> forall i int :: 0 <= i && i < old(len(lruStrs(g.cache, paramHash))) ==> lruStrs(g.cache, paramHash)[i] == old(lruStrs(g.cache, paramHash)[i])
+
+//@ # ---- a failed mutation hands its token back exactly once; a successful one keeps it ----
+//@ # ghost bookkeeping: the rollback closure returned by Finish/EFLO, whether the request was built, and how often
+//@ # that closure has been invoked since
+//@ ghost c16rb ref
+//@ ghost c16armed bool = false
+//@ ghost c16putbacks int = 0
+//@ # whether the (retried) cloud call itself came back with an error
+//@ ghost c16failed bool = false
+
+//@ func OpenAPI.CreateNetworkInterface
+//@   at call Finish: ghost c16rb = result1
+//@   at call Finish: ghost c16armed = (result2 == nil)
+//@   at call ExponentialBackoffWithContext: ghost c16failed = (result != nil)
+//@   at call dynamic: ghost c16putbacks = c16putbacks + ite(callee == c16rb, 1, 0)
+//@   # the cloud call failed: the token is handed back exactly once
+//@   ensures c16armed && c16failed ==> result1 != nil && c16putbacks == 1
+//@   # success keeps the token
+//@   ensures result1 == nil ==> c16putbacks == 0
+
+//@ func OpenAPI.AssignPrivateIPAddress
+//@   at call Finish: ghost c16rb = result1
+//@   at call Finish: ghost c16armed = (result2 == nil)
+//@   at call ExponentialBackoffWithContext: ghost c16failed = (result != nil)
+//@   at call dynamic: ghost c16putbacks = c16putbacks + ite(callee == c16rb, 1, 0)
+//@   # the cloud call failed: the token is handed back exactly once
+//@   ensures c16armed && c16failed ==> result1 != nil && c16putbacks == 1
+//@   # success keeps the token
+//@   ensures result1 == nil ==> c16putbacks == 0
+
+//@ func OpenAPI.AssignIpv6Addresses
+//@   at call Finish: ghost c16rb = result1
+//@   at call Finish: ghost c16armed = (result2 == nil)
+//@   at call ExponentialBackoffWithContext: ghost c16failed = (result != nil)
+//@   at call dynamic: ghost c16putbacks = c16putbacks + ite(callee == c16rb, 1, 0)
+//@   # the cloud call failed: the token is handed back exactly once
+//@   ensures c16armed && c16failed ==> result1 != nil && c16putbacks == 1
+//@   # success keeps the token
+//@   ensures result1 == nil ==> c16putbacks == 0
+
+//@ func OpenAPI.AssignPrivateIPAddress2
+//@   at call Finish: ghost c16rb = result1
+//@   at call Finish: ghost c16armed = (result2 == nil)
+//@   at call ExponentialBackoffWithContext: ghost c16failed = (result != nil)
+//@   at call dynamic: ghost c16putbacks = c16putbacks + ite(callee == c16rb, 1, 0)
+//@   # the cloud call failed: the token is handed back exactly once
+//@   ensures c16armed && c16failed ==> result1 != nil && c16putbacks == 1
+//@   # success keeps the token
+//@   ensures result1 == nil ==> c16putbacks == 0
+
+//@ func OpenAPI.AssignIpv6Addresses2
+//@   at call Finish: ghost c16rb = result1
+//@   at call Finish: ghost c16armed = (result2 == nil)
+//@   at call ExponentialBackoffWithContext: ghost c16failed = (result != nil)
+//@   at call dynamic: ghost c16putbacks = c16putbacks + ite(callee == c16rb, 1, 0)
+//@   # the cloud call failed: the token is handed back exactly once
+//@   ensures c16armed && c16failed ==> result1 != nil && c16putbacks == 1
+//@   # success keeps the token
+//@   ensures result1 == nil ==> c16putbacks == 0
+
+//@ func OpenAPI.CreateElasticNetworkInterfaceV2
+//@   at call CreateNetworkInterfaceOptions.EFLO: ghost c16rb = result1
+//@   at call CreateNetworkInterfaceOptions.EFLO: ghost c16armed = (result2 == nil)
+//@   at call dynamic: ghost c16putbacks = c16putbacks + ite(callee == c16rb, 1, 0)
+//@   ensures c16armed && result1 != nil ==> c16putbacks == 1
+//@   ensures result1 == nil ==> c16putbacks == 0
+
+//@ func OpenAPI.AssignLeniPrivateIPAddress2
+//@   at call AssignPrivateIPAddressOptions.EFLO: ghost c16rb = result1
+//@   at call AssignPrivateIPAddressOptions.EFLO: ghost c16armed = (result2 == nil)
+//@   at call ExponentialBackoffWithContext: ghost c16failed = (result != nil)
+//@   at call dynamic: ghost c16putbacks = c16putbacks + ite(callee == c16rb, 1, 0)
+//@   ensures c16armed && c16failed ==> result1 != nil && c16putbacks == 1
+//@   ensures result1 == nil ==> c16putbacks == 0
